@@ -130,10 +130,38 @@ def closure(k: int, hy: bool) -> bool:
     return cx[key]['class'] in exported_classes()
 
 
+def type_order(perm: int, tc_mid: bool) -> bool:
+    """
+    requires: 0 <= perm < 6
+    """
+    # derived types must reach the template AFTER the local type they derive from (the template emits one Python class
+    # per type in context order); names are chosen so that alphabetical order contradicts the dependency order
+    import itertools
+    decls = [m.type_decl('Zeta', seq('Integer32 ( 0 .. 100 )')),
+             (m.textual_convention('Mid', seq('Zeta ( 0 .. 50 )')) if tc_mid else m.type_decl('Mid', seq('Zeta ( 0 .. 50 )'))),
+             m.type_decl('Alpha', seq('Mid ( 0 .. 10 )') if not tc_mid else seq('Zeta ( 0 .. 10 )'))]
+    order = pick(list(itertools.permutations(range(3))), perm)
+    toks = m.module('M', [], [decls[i] for i in order] + [m.object_type('obj', seq('Alpha'), m.oid('iso', 3), descr=m.text('d'))])
+    try:
+        res = tok.compile_trees(tok.parse_tokens(toks), backend='pysnmp')
+    except error.PySmiError:
+        return False
+    keys = [k for k in res.ctx['M'].keys()]
+    parent = {'Mid': 'Zeta', 'Alpha': 'Zeta' if tc_mid else 'Mid'}
+    for child, par in parent.items():
+        same_block = res.ctx['M'][child]['class'] == res.ctx['M'][par]['class']
+        if same_block and keys.index(par) > keys.index(child):
+            return False
+    return True
+
+
 def conditions(prop, tier):
     t = 280 if tier == 'quick' else 1500
     return [dict(name='C04.context-agreement', fn='agreement', fixed={}, timeout=t,
                  bounds='2 declarations: every ordered pair of the 11 symbol-yielding kinds, 5 syntax/access variants each'),
+            dict(name='C04.type-definition-order', fn='type_order', fixed={}, timeout=t,
+                 bounds='chain of three derived types (optionally a TC in the middle) in every declaration order: in the context handed to the '
+                        'pysnmp template a derived type follows the local type it derives from (same template block)'),
             dict(name='C04.export-closure', fn='closure', fixed={}, timeout=t,
                  bounds='a symbol of each of the 11 kinds (plain / hyphenated name) declared in X-MIB and imported by Y-MIB: its class is among '
                         'the classes the pysnmp template exports (read from the template)')]
@@ -141,6 +169,7 @@ def conditions(prop, tier):
 
 def selftests(prop):
     return [('agreement', dict(k0=2, k1=10, v0=3, v1=0)), ('agreement', dict(k0=4, k1=7, v0=0, v1=0)),
+            ('type_order', dict(perm=3, tc_mid=False)), ('type_order', dict(perm=5, tc_mid=True)),
             ('closure', dict(k=2, hy=True)), ('closure', dict(k=10, hy=False))]
 
 
